@@ -281,7 +281,7 @@ class Bench:
             tol = {n: 20 * W.q_amt(n) for n in mexp.contents}
             self.compare_vessel(c, mexp, tol, key, 'new', prop='C10', clause='constructed_contents')
         if status != 'must_refuse':
-            W.add(name, c)
+            W.add(name, c, fresh=True)
             self.n_ok_state += 1
             self.after_result(ev, [(name, c)], key)
         return {'out': 'ok', 'status': status, 'fp': repr(fp_container(c)[2:4])}
@@ -309,6 +309,11 @@ class Bench:
         vol_storage = vol / W.units.vol_mult
         eps = F(1, 2 ** 52)
         pred = 8 * eps * vol_storage * (len(mv.contents) + 1) + W.slack_total(mv, 'L') / W.units.vol_mult
+        if mv.cap is not None and (mv.cap / W.units.vol_mult / (100 * W.units.q)).denominator != 1:
+            return False        # the capacity itself is not representable at the library's precision
+        for n, a in mv.contents.items():
+            if (a * W.msubs[n].per_amount('L') / W.units.vol_mult / (100 * W.units.q)).denominator != 1:
+                return False
         return pred < W.units.q / 4 and vol_storage <= 20000
 
     def exact_total_ok(self, T, unit):
@@ -331,7 +336,7 @@ class Bench:
         if p.wells.shape != (nr, nc):
             self.V('C07', 'plate_shape', key, f"shape {p.wells.shape} != {(nr, nc)}")
         self.check_result_object(p, key, 'new')
-        W.add(name, p)
+        W.add(name, p, fresh=True)
         return {'out': 'ok', 'shape': [nr, nc]}
 
     # ---- transfer
@@ -350,6 +355,9 @@ class Bench:
         if s.shape is None or d.shape is None:
             return 'list'
         return 'bad'
+
+    def is_fresh(self, op: Operand):
+        return (op.name, op.ver) in self.world.fresh
 
     def model_transfer(self, s: Operand, d: Operand, q: str, form: str, same: bool):
         """Sequential documented semantics on copies of the model twins.
@@ -397,6 +405,7 @@ class Bench:
         tol = {}
         status = 'must_accept'
         worst = None
+        fresh_src = self.is_fresh(s)
         for k, (cs, cd) in enumerate(pairs):
             vs, vd = get('s', cs), get('d', cd)
             T = mdl.total(vs, unit)
@@ -410,7 +419,7 @@ class Bench:
             if m_src < 0 and m_src <= -band_src:
                 return {'status': 'must_refuse', 'why': 'overdraw', 'pair': k}
             if m_src < band_src:
-                if m_src == 0 and T > 0 and self.exact_total_ok(T, unit):
+                if m_src == 0 and T > 0 and k == 0 and fresh_src and self.exact_total_ok(T, unit):
                     self.stats['probe:whole_content_transfer'] += 1
                 else:
                     status = 'dont_care' if status == 'must_accept' else status
@@ -771,6 +780,8 @@ class Bench:
                 nv, info = W.model.fill_to(pre, solvent, q)
             except M.Refuse as r:
                 band = self.band_fill(pre, unit, solvent)
+                if r.reason == 'exceeds capacity':
+                    band = self.band_cap(pre) + self.band_fill(pre, 'L', solvent)
                 if r.margin is not None and r.reason in ('below current quantity', 'exceeds capacity') and -r.margin < band:
                     status = 'dont_care'
                     continue
@@ -783,8 +794,8 @@ class Bench:
             band = self.band_fill(pre, unit, solvent)
             if info['margin_low'] < band:
                 status = 'dont_care' if status == 'must_accept' else status
-            if info['margin_cap'] is not None and info['margin_cap'] < self.band_cap(nv) + band * 0:
-                if info['margin_cap'] == 0 and unit == 'L' and self.exact_ok(nv):
+            if info['margin_cap'] is not None and info['margin_cap'] < self.band_cap(nv) + self.band_fill(pre, 'L', solvent):
+                if info['margin_cap'] == 0 and unit == 'L' and self.is_fresh(t) and self.exact_ok(nv):
                     self.stats['probe:exact_capacity_request'] += 1
                 else:
                     status = 'dont_care' if status == 'must_accept' else status
